@@ -9,6 +9,7 @@ import (
 	"bngvet/internal/bounds"
 	"bngvet/internal/flow"
 	"bngvet/internal/load"
+	"bngvet/internal/locks"
 
 	"golang.org/x/tools/go/ssa"
 )
@@ -91,6 +92,29 @@ func C09(c *Ctx) {
 				}
 			}
 			r.Check("C09.bounds", load.ShortFunc(f), s.Kind+":"+s.Expr, c.P.Pos(instrPos(s.Instr)), s.OK, s.Reason)
+		}
+	}
+	// ---- self-deadlock: a handler that holds a mutex calls (transitively) a function that locks it again
+	r.Rule("C09.relock", "no function reachable from a network-facing handler calls, while holding a sync.Mutex/RWMutex, a function that acquires the same mutex of the same object (not re-entrant: the handler would hang)", 50)
+	sums := locks.NewSummaries(func(f *ssa.Function) bool { return load.InModule(f) })
+	for _, f := range fns {
+		hasLock := false
+		for _, call := range flow.Calls(f) {
+			if op, ok := locks.ClassifyCall(call); ok && op.Acquire {
+				hasLock = true
+			}
+		}
+		if !hasLock {
+			continue
+		}
+		res := locks.SelfDeadlocks(f, sums)
+		if len(res) == 0 {
+			r.Check("C09.relock", load.ShortFunc(f), "calls under lock", c.P.Pos(f.Pos()), true, "")
+			continue
+		}
+		for _, d := range res {
+			r.Check("C09.relock", load.ShortFunc(f), "call "+load.ShortFunc(d.Callee)+" while holding "+d.Lock.Path, c.P.Pos(instrPos(d.Site)), false,
+				fmt.Sprintf("%s is held here and acquired again via %s: self-deadlock", d.Lock.Path, d.Acq.Via))
 		}
 	}
 	r.Count("functions_reachable", len(fns))
